@@ -67,7 +67,7 @@ Print Assumptions C10_clean_preserves_listing.
 
 (* a fixed root: ENOSPC exactly when, even after compaction, the new records plus the end-of-directory record do not fit; the directory then lists and resolves exactly as before *)
 Theorem C10_root_full_enospc :
-  forall (upper : list N -> list N) (spc : N) (d : Model.dir) (name : list N) (entry : Model.rec) (recs_new : list Model.rec), ProofsClean.wf_recs (Model.d_recs d) -> ProofsView.cap_ok d -> 0 < spc -> ProofsOps.entry_ok entry -> name <> [] -> ProofsLfn.name_ok name = true -> (length (Model.utf16 name) <= 255)%nat -> ProofsNames.ends_ffff name = false -> ~ In 229 (upper (Model.lstrip_dots name)) -> (forall a : N, Model.case_attr name (fst (Model.short_parts name (upper (Model.lstrip_dots name)))) (snd (Model.short_parts name (upper (Model.lstrip_dots name)))) = Some a -> fst (Model.short_parts name (upper (Model.lstrip_dots name))) <> []) -> Model.find upper (upper name) (upper name) (Model.groups (Model.d_recs d)) = Ok None -> (do xs <- Model.split_all (Model.groups (Model.d_recs d)); Model.prefix_entries name (upper (Model.lstrip_dots name)) (Model.existing_of xs) entry) = Ok recs_new -> forall n : N, Model.d_cap d = Some n -> ProofsClean.tidy (Model.d_recs d) = true -> let e1 := snd (Model.clean d) in (snd (Model.setitem upper spc d name entry) = Some OSError_ENOSPC <-> n <= Model.last_end (Model.groups (Model.d_recs d)) + N.of_nat (length recs_new) /\ n <= e1 + N.of_nat (length recs_new)) /\ (snd (Model.setitem upper spc d name entry) = Some OSError_ENOSPC -> fst (Model.setitem upper spc d name entry) = fst (Model.clean d) /\ ProofsView.view (Model.d_recs (fst (Model.clean d))) = ProofsView.view (Model.d_recs d) /\ Model.listing (fst (Model.clean d)) = Model.listing d /\ (forall key : list N, Model.getitem upper (fst (Model.clean d)) key = Model.getitem upper d key) /\ (forall key : list N, Model.contains upper (fst (Model.clean d)) key = Model.contains upper d key)) /\ (snd (Model.setitem upper spc d name entry) <> Some OSError_ENOSPC -> snd (Model.setitem upper spc d name entry) = None).
+  forall (upper : list N -> list N) (spc : N) (d : Model.dir) (name : list N) (entry : Model.rec) (recs_new : list Model.rec), ProofsClean.wf_recs (Model.d_recs d) -> ProofsView.cap_ok d -> 0 < spc -> ProofsOps.entry_ok entry -> name <> [] -> ProofsLfn.name_ok name = true -> (length (Model.utf16 name) <= 255)%nat -> ProofsNames.ends_ffff name = false -> ~ In 229 (upper (Model.lstrip_dots name)) -> (forall a : N, Model.case_attr name (fst (Model.short_parts name (upper (Model.lstrip_dots name)))) (snd (Model.short_parts name (upper (Model.lstrip_dots name)))) = Some a -> fst (Model.short_parts name (upper (Model.lstrip_dots name))) <> []) -> Model.find upper (upper name) (upper name) (Model.groups (Model.d_recs d)) = Ok None -> (do xs <- Model.split_all (Model.groups (Model.d_recs d)); Model.prefix_entries name (upper (Model.lstrip_dots name)) (Model.existing_of upper xs) entry) = Ok recs_new -> forall n : N, Model.d_cap d = Some n -> ProofsClean.tidy (Model.d_recs d) = true -> let e1 := snd (Model.clean d) in (snd (Model.setitem upper spc d name entry) = Some OSError_ENOSPC <-> n <= Model.last_end (Model.groups (Model.d_recs d)) + N.of_nat (length recs_new) /\ n <= e1 + N.of_nat (length recs_new)) /\ (snd (Model.setitem upper spc d name entry) = Some OSError_ENOSPC -> fst (Model.setitem upper spc d name entry) = fst (Model.clean d) /\ ProofsView.view (Model.d_recs (fst (Model.clean d))) = ProofsView.view (Model.d_recs d) /\ Model.listing (fst (Model.clean d)) = Model.listing d /\ (forall key : list N, Model.getitem upper (fst (Model.clean d)) key = Model.getitem upper d key) /\ (forall key : list N, Model.contains upper (fst (Model.clean d)) key = Model.contains upper d key)) /\ (snd (Model.setitem upper spc d name entry) <> Some OSError_ENOSPC -> snd (Model.setitem upper spc d name entry) = None).
 Proof. exact FatDir.ProofsMain.root_full_enospc. Qed.
 Print Assumptions C10_root_full_enospc.
 
